@@ -84,6 +84,7 @@ func (m *modImporter) check(p *pkgInfo) error {
 		Defs:       map[*ast.Ident]types.Object{},
 		Uses:       map[*ast.Ident]types.Object{},
 		Selections: map[*ast.SelectorExpr]*types.Selection{},
+		Implicits:  map[ast.Node]types.Object{},
 	}
 	conf := types.Config{Importer: m, Error: func(err error) { m.errors = append(m.errors, err.Error()) }}
 	tp, err := conf.Check(p.path, m.fset, p.files, p.info)
@@ -266,6 +267,7 @@ func main() {
 			if !rw.used {
 				continue
 			}
+			blankUnusedImports(f, p.info)
 			addImport(f, mod+"/"+rtName)
 			keepDirectiveComments(f)
 			var buf bytes.Buffer
@@ -371,6 +373,35 @@ func keepDirectiveComments(f *ast.File) {
 		}
 		return true
 	})
+}
+
+// blankUnusedImports: a rewrite can remove the last use of an import (e.g.
+// runtime.Gosched -> zz_simrt.Gosched); such an import is renamed to _ so the
+// file still compiles and the package's init still runs.
+func blankUnusedImports(f *ast.File, info *types.Info) {
+	used := map[*types.PkgName]bool{}
+	ast.Inspect(f, func(n ast.Node) bool {
+		if id, ok := n.(*ast.Ident); ok {
+			if pn, ok := info.Uses[id].(*types.PkgName); ok {
+				used[pn] = true
+			}
+		}
+		return true
+	})
+	for _, spec := range f.Imports {
+		var pn *types.PkgName
+		if spec.Name != nil {
+			if spec.Name.Name == "_" || spec.Name.Name == "." {
+				continue
+			}
+			pn, _ = info.Defs[spec.Name].(*types.PkgName)
+		} else {
+			pn, _ = info.Implicits[spec].(*types.PkgName)
+		}
+		if pn != nil && !used[pn] {
+			spec.Name = ast.NewIdent("_")
+		}
+	}
 }
 
 func addImport(f *ast.File, path string) {
@@ -571,6 +602,51 @@ func (rw *rewriter) syncMethod(c *ast.CallExpr) (tname, mname string, ptr ast.Ex
 	return
 }
 
+// pkgFunc returns "pkg.Name" when c calls a package-level function of sync or runtime.
+func (rw *rewriter) pkgFunc(c *ast.CallExpr) string {
+	fun := c.Fun
+	if ix, ok := fun.(*ast.IndexExpr); ok { // explicit instantiation: sync.OnceValue[int](f)
+		fun = ix.X
+	}
+	if ix, ok := fun.(*ast.IndexListExpr); ok {
+		fun = ix.X
+	}
+	se, ok := fun.(*ast.SelectorExpr)
+	if !ok || rw.p.info.Selections[se] != nil {
+		return ""
+	}
+	fn, _ := rw.p.info.Uses[se.Sel].(*types.Func)
+	if fn == nil || fn.Pkg() == nil {
+		return ""
+	}
+	if p := fn.Pkg().Path(); p == "sync" || p == "runtime" {
+		if sig, _ := fn.Type().(*types.Signature); sig != nil && sig.Recv() == nil {
+			return p + "." + fn.Name()
+		}
+	}
+	return ""
+}
+
+// lockerMethod: x.Lock() / x.Unlock() where x has the interface type sync.Locker.
+func (rw *rewriter) lockerMethod(c *ast.CallExpr) (recv ast.Expr, mname string, ok bool) {
+	se, isSel := c.Fun.(*ast.SelectorExpr)
+	if !isSel || len(c.Args) != 0 {
+		return
+	}
+	sel := rw.p.info.Selections[se]
+	if sel == nil || sel.Kind() != types.MethodVal {
+		return
+	}
+	if n := se.Sel.Name; n != "Lock" && n != "Unlock" {
+		return
+	}
+	named, isNamed := sel.Recv().(*types.Named)
+	if !isNamed || named.Obj().Pkg() == nil || named.Obj().Pkg().Path() != "sync" || named.Obj().Name() != "Locker" {
+		return
+	}
+	return se.X, se.Sel.Name, true
+}
+
 // atomicCall reports whether c calls into sync/atomic (function or method) or
 // a method of sync.Map / sync.Pool, and how many results it has. These
 // operations never block; they only get a scheduling point *after* them so
@@ -653,6 +729,24 @@ func (rw *rewriter) expr(e ast.Expr) ast.Expr {
 		x.Fun = rw.expr(x.Fun)
 		for i := range x.Args {
 			x.Args[i] = rw.expr(x.Args[i])
+		}
+		if name := rw.pkgFunc(x); name != "" {
+			switch name {
+			case "sync.OnceFunc", "sync.OnceValue", "sync.OnceValues":
+				rw.newSite(x.Pos(), "once")
+				x.Fun = rt(strings.TrimPrefix(name, "sync."))
+				return x
+			case "runtime.Gosched":
+				if len(x.Args) == 0 {
+					return call("Gosched", rw.newSite(x.Pos(), "gosched"))
+				}
+			}
+		}
+		if recv, mname, ok := rw.lockerMethod(x); ok {
+			if mname == "Lock" {
+				return call("LockerLock", recv, rw.newSite(x.Pos(), "lock"))
+			}
+			return call("LockerUnlock", recv, rw.newSite(x.Pos(), "unlock"))
 		}
 		if tname, mname, ptr, ok := rw.syncMethod(x); ok {
 			switch tname + "." + mname {
